@@ -41,7 +41,7 @@ def run(chk):
                 "(ii) every face normal is a unit vector with zero unused components and no face has its normal along an unused axis; (iii) 1D: exact closed form (boundaries at midpoints of sorted neighbours / walls / wrapped images, "
                 "two faces of area 1 per cell, measure = length); (iv) 1D and 2D vs the implementation's 3D build of the same generators in the unit bar/slab: measure, centroid, in-plane faces; "
                 "non-trivial = record with >= 2 generators; panicking near-degenerate inputs are C05's business (counted)")
-    chk.lean(['MVoro.Props.C08', 'MVoro.Proofs.LowDim'], [], [])
+    chk.lean(['MVoro.Props.C08', 'MVoro.Proofs.LowDim'], ['MVoro.Obl.DimInput'], ['DimInput'])
     got = run_cells_op(chk, op='lowdim')
     if got is None:
         return
